@@ -676,7 +676,7 @@ def floors(tier):
         f[f"compared-seed-class:{c}"] = len(PROBED)
     if c16.PROBED_GEOMETRIC:
         for k in ("p=0", "p=1", "1e-12<=p<1e-4", "1e-4<=p<1e-2", "1e-2<=p<1", "numpy-scalar", "->inf"):
-            f[f"geometric:{k}"] = 50
+            f[f"geometric:{k}"] = 20  # observed 45..120 over seeds 0..15 at the quick tier
     f["at-most-2-unprobed"] = 1
     for k in ALPHABET:
         f[f"schedule-step:{k}"] = len(PROBED)
